@@ -641,7 +641,7 @@ class Pile(Widget, WidgetContainerMixin, WidgetContainerListContentsMixin):
                 if Sizing.FLOW in w_sizing:
                     w_h_args[idx] = (0,)
                 else:
-                    w_sizing[idx] = (0, 0)
+                    w_h_args[idx] = (0, 0)
 
             elif Sizing.FIXED in w_sizing and w_sizing & {Sizing.BOX, Sizing.FLOW}:
                 width, height = widget.pack((), focused)
